@@ -500,9 +500,18 @@ def compare(L: Lang, obs: dict, m: dict) -> list[tuple[str, dict]]:
 
 
 def matches_pinned(obs: dict, m: dict) -> bool:
-    """Is the implementation's link structure exactly the pinned algorithm's?"""
-    return ("psub" in m and obs["canon"] == m["canon"]
-        and all(obs["sub"][t] == m["psub"][t] and obs["sup"][t] == m["psup"][t] for t in obs["canon"]))
+    """Is the implementation's link structure exactly what the pinned algorithm
+    (model lang_succ_pinned: TypeOperation.successors with the language's
+    universe, filtered to canonical types with a one-level look-through)
+    computes, transitive variants included?"""
+    if "psub" not in m or obs["canon"] != m["canon"]:
+        return False
+    for t in obs["canon"]:
+        if obs["sub"][t] != m["psub"][t] or obs["sup"][t] != m["psup"][t]:
+            return False
+        if obs["subT"][t] != reach(m["psub"], t) or obs["supT"][t] != reach(m["psup"], t):
+            return False
+    return True
 
 
 # --------------------------------------------------------------------------
@@ -600,9 +609,11 @@ def run(rep: C.Report, langs: list[Lang], tag: str, tier: str):
         if dis:
             n_dis += 1
             if not viol and n_dis <= 6:
+                # (the pinned algorithm also reports some redundant, non-covering links)
                 rep.violation(f"K_C10_{tag}_{i}", dict(payload, kind="correspondence",
                     what="implementation differs from the model (K_C10) without violating the oracle",
-                    differences=[{"check": k, **d} for k, d in dis[:8]]), has_input=False)
+                    differences=[{"check": k, **d} for k, d in dis[:8]]), has_input=False,
+                    signature=SIG_PINNED if pinned_shape else None)
     stats["canon_size_hist"] = _hist(stats.pop("canon_sizes"))
     return len(kept), distinct, n_dis, n_viol, stats, samples
 
@@ -624,17 +635,21 @@ def ty_depth_py(t):
 
 
 def main(tier: str, seed: int, replay: str | None = None) -> int:
+    # read the replay first: Report() clears replays/C10/ of stale files, and that
+    # is where the file to replay usually lives
+    d = json.loads(open(replay).read()) if replay else {}
+    ev_file = C.EVID / "C10.json"
+    old_evidence = ev_file.read_text() if (replay and ev_file.exists()) else None
     C.force_repo_on_path()
     # Function types print as `A ** B`; rdflib warns about the blank in the URI (C14's business)
     logging.getLogger("rdflib.term").setLevel(logging.ERROR)
     rep = C.Report("C10", tier, seed)
     rep.proof_stage()
     rng = random.Random(seed)
-    if replay:
-        d = json.loads(open(replay).read())
+    if "language" in d:
         langs = [Lang.from_json(d["language"])]
     else:
-        n = 150 if tier == "quick" else 2000
+        n = 120 if tier == "quick" else 2000
         langs = list(FIXED) + small_scope()
         for k in range(n):
             # each flag combination gets a quarter of the stream
@@ -658,4 +673,7 @@ def main(tier: str, seed: int, replay: str | None = None) -> int:
         "rdflib's store and transitive_subjects are modelled, not verified; adding closure triples while iterating is assumed not to change the closure",
         "agreement between model and implementation is tested on the generated languages, not proved",
     ]
-    return rep.finish(C.TRUSTED)
+    rc = rep.finish(C.TRUSTED)
+    if old_evidence is not None:      # a replay is diagnostic: keep the evidence of the last full run
+        ev_file.write_text(old_evidence)
+    return rc
